@@ -57,9 +57,20 @@ SINGLE = {W.ST_DESC: "SwitchDescReceived",
           W.ST_AGGREGATE: "AggregateFlowStatsReceived"}
 
 
+_NAMES = ["eth"]       # this run's interface naming scheme (set by run_plan)
+
+
+def _name(no, name_v):
+  if _NAMES[0] == "digits":
+    # interfaces named by bare numbers -- and not their own: the name of
+    # one port reads like the number of another (or of none)
+    return str(5 - no) if not name_v else str(10 + no)
+  return ("eth%d" if not name_v else "ren%d") % no
+
+
 def _port(no, name_v=0, hw_v=0, config=0):
   return {"port_no": no, "hw_addr": F.mac((0x100 if not hw_v else 0x200) + no),
-          "name": ("eth%d" if not name_v else "ren%d") % no,
+          "name": _name(no, name_v),
           "config": config, "state": 0}
 
 
@@ -156,6 +167,7 @@ def gen_plan(seed, tier):
     cfg["big_reply"] = True
     if cfg["recv_mode"] == "dribble":
       cfg["recv_mode"] = "choose"
+  cfg["names"] = "digits" if Rng(mix(seed, "names")).chance(0.25) else "eth"
   return {"prop": PROP, "seed": seed, "cfg": cfg, "steps": steps}
 
 
@@ -176,6 +188,8 @@ def run_plan(plan):
   known = load_known(PROP)
   hit = []
   res = {"verdict": "ok"}
+  _NAMES[0] = cfg.get("names", "eth")
+  sim.probes["port_names_" + _NAMES[0]] += 1
   try:
     _drive(sim, plan, known, hit)
   except Violation as v:
@@ -593,7 +607,7 @@ def _cmp_collection(pc, model, ctx, EthAddr, known, hit, sim, original=False):
   # by name and by hardware address: every variant either port could have
   for no in range(1, 5):
     for nv in (0, 1):
-      name = ("eth%d" if not nv else "ren%d") % no
+      name = _name(no, nv)
       owner = [k for k, m in model.items() if m["name"] == name]
       present = name in pc
       if present != bool(owner):
